@@ -41,7 +41,23 @@ VARIANTS = {
                         "-fno-sanitize=object-size", "-w"]),
     # plain clang build without -march for valgrind memcheck
     "memck": dict(cxx="clang++-14", flags=["-std=c++14", "-O1", "-g", "-gdwarf-4", "-w"]),   # valgrind 3.19 cannot read clang's DWARF 5
+    # coverage-guided in-process fuzzing of the input readers (C17): the sanitizer flags plus libFuzzer's edge instrumentation
+    "fuzz": dict(cxx="clang++-14",
+                 flags=["-std=c++14", "-O1", "-g", "-fno-omit-frame-pointer", "-fsanitize=address,undefined", "-fsanitize=fuzzer-no-link",
+                        "-fno-sanitize-recover=all", "-fno-sanitize=object-size", "-w"]),
+    # source-based coverage (bin/anchorcov and the coverage pass of the thorough tier): which anchored
+    # functions and lines the workloads of a check actually reach
+    "cov": dict(cxx="clang++-14", flags=["-std=c++14", "-O1", "-g", "-fprofile-instr-generate",
+                                         "-fcoverage-mapping", "-w"]),
 }
+
+
+def eff(variant):
+    """In coverage mode (VERIF_COV=1) the release and sanitizer variants are replaced by the
+    coverage-instrumented build, so that a check's own workload can be measured unchanged."""
+    if os.environ.get("VERIF_COV") and variant in ("rel", "asan"):
+        return "cov"
+    return variant
 
 
 def _src_files():
@@ -127,10 +143,12 @@ def _prune(keep):
 
 
 def variant_dir(variant):
+    variant = eff(variant)
     return os.path.join(CACHE, tree_hash(), variant)
 
 
 def cflags(variant):
+    variant = eff(variant)
     v = VARIANTS[variant]
     vd = variant_dir(variant)
     return ([v["cxx"]] + v["flags"] + DEFINES + INCLUDES +
@@ -140,6 +158,7 @@ def cflags(variant):
 def build(variant, jobs=16, quiet=False):
     """Build libinovesa.a + inovesa for the variant; returns the variant dir.
     Raises RuntimeError (harness failure) if the tree does not compile."""
+    variant = eff(variant)
     th = tree_hash()
     vd = os.path.join(CACHE, th, variant)
     stamp = os.path.join(vd, "OK")
@@ -185,7 +204,7 @@ def build(variant, jobs=16, quiet=False):
         if rc:
             raise RuntimeError("ar failed: " + out)
         v = VARIANTS[variant]
-        link = [v["cxx"]] + [f for f in v["flags"] if f.startswith(("-fsanitize", "-fno-sanitize", "-g", "-O", "-march"))]
+        link = [v["cxx"]] + [f for f in v["flags"] if f.startswith(("-fsanitize", "-fno-sanitize", "-g", "-O", "-march", "-fprofile", "-fcoverage"))]
         rc, out = _run(link + mainobj + [lib] + LIBS + ["-o", os.path.join(vd, "inovesa")], log)
         if rc:
             raise RuntimeError("link failed: " + out[-3000:])
@@ -198,7 +217,10 @@ def build(variant, jobs=16, quiet=False):
 
 def build_harness(variant, name, extra_flags=()):
     """Compile /verif/harness/<name>.cpp against the variant's library."""
+    variant = eff(variant)
     vd = build(variant)
+    if variant == "fuzz":
+        extra_flags = tuple(extra_flags) + ("-fsanitize=fuzzer",)      # libFuzzer driver supplies main()
     src = os.path.join(VERIF, "harness", name + ".cpp")
     h = hashlib.sha256()
     for f in [src] + sorted(
